@@ -69,6 +69,8 @@ struct Harness {
     /// really block on it and the scheduler detects that from the kernel's thread state. Slower,
     /// but a change that splits or shortens the critical section is not masked by the model.
     unmodelled_state_lock: bool,
+    /// one more controlled thread calls reopen_output() (the file is in place) while the others log
+    reopen_thread: bool,
 }
 
 fn harnesses() -> Vec<Harness> {
@@ -84,6 +86,7 @@ fn harnesses() -> Vec<Harness> {
         tick_budget,
         thorough_only,
         unmodelled_state_lock: false,
+        reopen_thread: false,
     };
     let num = OutK::File(Some(NamingK::Numbers));
     let mut v = vec![
@@ -120,6 +123,15 @@ fn harnesses() -> Vec<Harness> {
     ] {
         let mut x = h(name, mode, num, CleanK::Never, false, 2, 2, &[9, 6], 0, thorough_only);
         x.unmodelled_state_lock = true;
+        v.push(x);
+    }
+    for (name, mode, thorough_only) in [
+        ("direct/file-numbers/2x2+reopen-thread", ModeK::Direct, false),
+        ("buffered8/file-numbers/2x2+reopen-thread", ModeK::BufDont(8), false),
+        ("async-capa64/file-numbers/2x2+reopen-thread", ModeK::Async(1, 64, 0), true),
+    ] {
+        let mut x = h(name, mode, num, CleanK::Never, false, 2, 2, &[9, 6], 0, thorough_only);
+        x.reopen_thread = true;
         v.push(x);
     }
     v
@@ -324,6 +336,14 @@ fn body(h: Harness) -> Arc<dyn Fn(&Arc<Sched>) -> Obs + Send + Sync> {
                 }
             }));
         }
+        if h.reopen_thread {
+            let h2 = handle.clone();
+            hs.push(s.spawn("reopen", move || {
+                h2.reopen_output().ok();
+                // keep the clone alive: dropping a handle clone must not matter, but that is C04's subject
+                std::mem::forget(h2);
+            }));
+        }
         for jh in hs {
             s.join(jh);
         }
@@ -447,6 +467,7 @@ fn stress(out: &mut Out) {
             tick_budget: 0,
             thorough_only: false,
             unmodelled_state_lock: false,
+            reopen_thread: false,
         };
         let h2 = h.clone();
         let r = crate::run_isolated(std::time::Duration::from_secs(60), move || {
